@@ -123,19 +123,21 @@ def apply_chain(stats, L, chain):
             return
 
 
-def t_chains(L):
+def t_chains(L, maxk=3, shard=0, nshards=1):
     stats = Stats()
     ns = sorted({-1, 0, 1, 2, L - 1, L, L + 1} - {-2})
     ns = [n for n in ns if n >= -1]
     steps = [(op, n) for op in CHAIN_OPS for n in ns if not (op.startswith("tee") and n != 0)]
     n_chains = 0
-    for k in (1, 2, 3):
-        for chain in itertools.product(steps, repeat=k):
+    for k in range(1, maxk + 1):
+        for ci, chain in enumerate(itertools.product(steps, repeat=k)):
+            if ci % nshards != shard:
+                continue
             apply_chain(stats, L, chain)
             n_chains += 1
             if k >= 2 and any(0 < n < L for _, n in chain):
                 stats.nt("chain", L, repr(chain))
-    stats.subspaces.append({"name": "all chains of length <= 3 over %d (operation, count) steps, match sequence length %d" % (len(steps), L),
+    stats.subspaces.append({"name": "all chains of length <= %d over %d (operation, count) steps, match sequence length %d (shard %d/%d)" % (maxk, len(steps), L, shard, nshards),
                             "size": n_chains, "exhaustive": True})
     stats.sample({"L": L, "chain": [list(c) for c in chain]})
     return stats
@@ -318,9 +320,12 @@ def t_machine(seed, n):
 
 def tasks(tier, seed):
     ts = [{"name": "chains-L%d" % L, "fn": "t_chains", "kw": {"L": L}} for L in range(0, 6)]
+    if tier == "thorough":
+        ts = [{"name": "chains4-L%d-%d" % (L, k), "fn": "t_chains", "kw": {"L": L, "maxk": 4, "shard": k, "nshards": 8}} for L in range(0, 5) for k in range(8)]
+        ts += [{"name": "chains-L5", "fn": "t_chains", "kw": {"L": 5}}]
     ts.append({"name": "terminals", "fn": "t_terminals"})
-    n = 400 if tier == "quick" else 8000
-    for k in range(8):
+    n = 1500 if tier == "quick" else 12000
+    for k in range(8 if tier == "quick" else 16):
         ts.append({"name": "machine-%d" % k, "fn": "t_machine", "kw": {"seed": mix(seed, ID, k), "n": n}})
     return ts
 
